@@ -31,6 +31,8 @@ type pbOp struct {
 	Res  string `json:"res"`
 	Part string `json:"part"`
 	Who  string `json:"who,omitempty"`  // the account ("" = root)
+	Inv  int64  `json:"inv"`            // logical instants of the request's start and of its reply
+	Ret  int64  `json:"ret"`
 	Note string `json:"note,omitempty"` // not read by the spec: status / code
 }
 
@@ -38,7 +40,10 @@ type pbFinal struct {
 	Bucket bool   `json:"bucket"`
 	Owned  bool   `json:"owned"`
 	Obj    string `json:"obj"`
-	Upl    string `json:"upl,omitempty"` // model only
+	// versioned buckets: the uploads whose bytes some listed version of the key returns
+	Vers    []string `json:"vers,omitempty"`
+	HasVers bool     `json:"-"`
+	Upl     string   `json:"upl,omitempty"` // model only
 	// not read by the spec: what CreateBucket answers on an ownerless bucket left behind
 	ZombieCreate string `json:"zombie_create,omitempty"`
 }
@@ -73,9 +78,13 @@ func (l pbLine) traceLine() any {
 		if who == "" {
 			who = "root"
 		}
-		ops[p] = map[string]any{"op": o.Op, "res": o.Res, "part": o.Part, "who": who}
+		ops[p] = map[string]any{"op": o.Op, "res": o.Res, "part": o.Part, "who": who, "inv": o.Inv, "ret": o.Ret}
 	}
-	return map[string]any{"ops": ops, "final": map[string]any{"bucket": l.Final.Bucket, "owned": l.Final.Owned, "obj": l.Final.Obj}}
+	fin := map[string]any{"bucket": l.Final.Bucket, "owned": l.Final.Owned, "obj": l.Final.Obj}
+	if l.Final.Vers != nil {
+		fin["vers"] = l.Final.Vers
+	}
+	return map[string]any{"ops": ops, "final": fin}
 }
 
 type pbConfig struct {
@@ -315,6 +324,22 @@ func (w *pbWorld) final(bucket string, pids []string) pbFinal {
 			}
 		}
 	}
+	if w.k.Versioning {
+		if lv, r := ListVersions(w.cl, bucket); r.OK() && lv != nil {
+			f.Vers = []string{}
+			for _, v := range lv.Versions {
+				if v.Key != w.key() {
+					continue
+				}
+				gv := GetObjectVersion(w.cl, bucket, v.Key, v.VersionId)
+				for _, p := range pids {
+					if gv.OK() && bytes.Equal(gv.Body, pbContent(p)) {
+						f.Vers = append(f.Vers, p)
+					}
+				}
+			}
+		}
+	}
 	return f
 }
 
@@ -408,7 +433,9 @@ func (w *pbWorld) replay(scn string, initBucket, initTmp bool, schedule []string
 	line := pbLine{Ops: map[string]pbOp{}, Scenario: scn, Config: w.k.String(), InitBucket: initBucket, InitTmp: initTmp, Sched: schedule, Sites: map[string][]string{}}
 	for _, p := range names {
 		r := res[labels[p]]
-		line.Ops[p] = r.Obs.(pbOp)
+		o := r.Obs.(pbOp)
+		o.Inv, o.Ret = r.Inv, r.Ret
+		line.Ops[p] = o
 		line.Sites[p] = r.Sites
 	}
 	line.Final = w.final(bucket, names)
@@ -527,6 +554,10 @@ type pbPlan struct {
 	sample              int
 }
 
+// versionedOnly: the plan runs on configurations with a versioning directory only, and its
+// schedules are filtered (marked by a sample size ending in 1)
+func (p pbPlan) versionedOnly() bool { return p.sample%10 == 1 }
+
 type pbJob struct {
 	ci   int
 	k    pbConfig
@@ -580,6 +611,71 @@ func pbGenerate(c *core.Ctx, j *pbJob) {
 		}
 	}
 	res.Cleanup()
+	if pl.versionedOnly() {
+		// keep the schedules in which both uploads run completely between two steps of the
+		// delete (they are what the plan is for), and a few of the others
+		var in, other []pbBehaviour
+		for _, b := range j.behs {
+			first, last, dBefore, dAfter := -1, -1, false, false
+			for i, p := range b.Sched {
+				if p != "d1" {
+					if first < 0 {
+						first = i
+					}
+					last = i
+				}
+			}
+			inside := first >= 0
+			for i, p := range b.Sched {
+				if p == "d1" {
+					if i < first {
+						dBefore = true
+					} else if i > last {
+						dAfter = true
+					} else {
+						inside = false
+					}
+				}
+			}
+			if inside && dBefore && dAfter {
+				in = append(in, b)
+			} else {
+				other = append(other, b)
+			}
+		}
+		if len(in) > 24 {
+			in = in[:24]
+		}
+		if len(other) > 12 {
+			other = other[:12]
+		}
+		j.behs = append(in, other...)
+		// directed: the uploads one after the other, completely inside the delete's window
+		// (a finished process ignores further steps, so the counts are generous)
+		rep := func(p string, n int) []string {
+			out := make([]string, n)
+			for i := range out {
+				out[i] = p
+			}
+			return out
+		}
+		cat := func(parts ...[]string) []string {
+			var out []string
+			for _, x := range parts {
+				out = append(out, x...)
+			}
+			return out
+		}
+		d := []string{"d1"}
+		for _, sc := range [][]string{
+			cat(d, rep("p1", 14), rep("p2", 14), d),
+			cat(d, rep("p2", 14), rep("p1", 14), d),
+			cat(rep("p1", 14), d, rep("p2", 14), d),
+			cat(d, rep("p1", 14), d, rep("p2", 14)),
+		} {
+			j.behs = append(j.behs, pbBehaviour{Sched: sc, Class: "directed"})
+		}
+	}
 	if len(j.behs) == 0 {
 		j.err = fmt.Sprintf("no behaviours from PosixBucket %s/%v: %s", pl.scn, k, res.Tail(15))
 	}
@@ -600,12 +696,18 @@ func c16Race(c *core.Ctx, replayLine *pbLine) {
 	} else {
 		plans = append(plans, pbPlan{"put_del_mk", true, true, false, 30}, pbPlan{"put_put_del", true, true, false, 30})
 	}
+	// two uploads of one key inside DeleteBucket's window, in a VERSIONED bucket (every
+	// acknowledged upload is a version of its own that must survive a refused delete)
+	plans = append(plans, pbPlan{"put_put_del", true, true, false, c.Pick(401, 1501)})
 	configs := []pbConfig{{"otmp", false, false}}
 	if c.Thorough() {
 		configs = []pbConfig{{"otmp", false, false}, {"named", false, false}, {"otmp", true, false}, {"otmp", false, true}, {"named", true, true}}
 	} else {
 		alt := []pbConfig{{"named", false, false}, {"otmp", true, false}, {"otmp", false, true}, {"named", true, true}}
 		configs = append(configs, alt[int(c.Seed)%len(alt)])
+		if !configs[1].Versioning {
+			configs = append(configs, pbConfig{"otmp", true, false})
+		}
 	}
 	// which design does the code implement? Two directed schedules tell (the verdicts never
 	// depend on this: it selects the model whose predictions the forced schedules are
@@ -629,7 +731,10 @@ func c16Race(c *core.Ctx, replayLine *pbLine) {
 	} else {
 		for ci, k := range configs {
 			for _, pl := range plans {
-				if ci > 0 && q && !pl.exhaustive {
+				if pl.versionedOnly() && !k.Versioning {
+					continue
+				}
+				if ci > 0 && q && !pl.exhaustive && !pl.versionedOnly() {
 					continue // quick: the sampled triples on the first configuration only
 				}
 				jobs = append(jobs, &pbJob{ci: ci, k: k, pl: pl})
